@@ -474,6 +474,46 @@ ENSURES(RESULT == (float)h->count / (float)H_EFFN(h))
 /* ------------------------------------------------------------------ the code */
 #include "hash.c"
 
+#ifdef VF_G_find_visit
+/* C03, element level, one step of a lookup: an element of the chain is offered to the caller's visit
+ * function exactly when its key matches (once, with the caller's private pointer); it becomes the
+ * result and stops the walk exactly when it matches and is accepted (or no visit function is given);
+ * otherwise the walk goes on and the result so far is kept.  That the chain walk hands over each
+ * element once and stops at the first non-zero answer is the bounded part (hashb.*). */
+size_t vf_uv_calls; _Bool vf_uv_bad; int vf_uv_ret; const void * vf_uv_e; void * vf_uv_p;
+int vf_uvisit(const void * e, void * p)
+{
+    vf_uv_calls++;
+    if (e != vf_uv_e || p != vf_uv_p) {
+        vf_uv_bad = 1;
+    }
+    vf_uv_ret = nondet_int();
+    return vf_uv_ret;
+}
+cstl_const_visit_func_t * const vf_anchor_uvisit = vf_uvisit;
+#define HF(p)  ((struct cstl_hash_find_priv *)(p))
+#define HFN(e) ((struct cstl_hash_node *)((char *)(e) + 8))
+static int cstl_hash_find_visit(void * const e, void * const p)
+REQUIRES(FRESH(p, sizeof(struct cstl_hash_find_priv)) && FRESH(HF(p)->h, sizeof(struct cstl_hash)) && HF(p)->h->off == 8)
+REQUIRES(FRESH(e, 8 + sizeof(struct cstl_hash_node)) && (HF(p)->visit == NULL || HF(p)->visit == vf_uvisit))
+REQUIRES(vf_uv_calls == 0 && !vf_uv_bad && vf_uv_e == e && vf_uv_p == HF(p)->p)
+ASSIGNS(HF(p)->e, vf_uv_calls, vf_uv_bad, vf_uv_ret)
+ENSURES(HFN(e)->key != HF(p)->k ==> (RESULT == 0 && HF(p)->e == OLD(HF(p)->e) && vf_uv_calls == 0))
+ENSURES((HFN(e)->key == HF(p)->k && HF(p)->visit == NULL) ==> (RESULT == 1 && HF(p)->e == e && vf_uv_calls == 0))
+ENSURES((HFN(e)->key == HF(p)->k && HF(p)->visit != NULL) ==> (vf_uv_calls == 1 && !vf_uv_bad &&
+         (vf_uv_ret != 0 ? (RESULT == 1 && HF(p)->e == e) : (RESULT == 0 && HF(p)->e == OLD(HF(p)->e)))))
+;
+/* one step of an erase: stops exactly at the object passed (pointer identity, not key), otherwise
+ * advances the link cursor to the visited node's next field */
+#define HE(p)  ((struct cstl_hash_erase_priv *)(p))
+static int cstl_hash_erase_visit(void * const e, void * const p)
+REQUIRES(FRESH(p, sizeof(struct cstl_hash_erase_priv)) && FRESH(HE(p)->n, sizeof(struct cstl_hash_node *)) && FRESH(*HE(p)->n, sizeof(struct cstl_hash_node)))
+ASSIGNS(HE(p)->n)
+ENSURES(HE(p)->e == e ? (RESULT == 1 && HE(p)->n == OLD(HE(p)->n)) : (RESULT == 0 && HE(p)->n == &(*OLD(HE(p)->n))->next))
+;
+#endif
+
+
 /* ------------------------------------------------------------------ harnesses */
 #ifndef VF_NATIVE
 
@@ -581,6 +621,11 @@ void h_get_bucket(void)
     VF_END();
 }
 
+void * nondet_ptr(void);
+#ifdef VF_G_find_visit
+void h_find_visit(void) { void * e, * p; vf_uv_e = nondet_ptr(); vf_uv_p = nondet_ptr(); cstl_hash_find_visit(e, p); VF_END(); }
+void h_erase_visit(void) { void * e = nondet_ptr(), * p; cstl_hash_erase_visit(e, p); VF_END(); }
+#endif
 #ifdef VF_G_insert
 void h_insert(void)
 {
